@@ -73,6 +73,13 @@ func init() {
 		it.Assume(c.And(c.Le(c.IntI(0), t), c.Lt(t, c.IntConst(new(big.Int).Lsh(big.NewInt(1), uint(bits))))))
 		return it.newBig(t)
 	})
+	R(VS+"ScalarBytes", func(it *Interp, _ *ssa.Function, a []Value) Value {
+		t := it.nondet(labelOf(it, a[0]), "int", smt.Int)
+		c := it.C
+		it.Assume(c.And(c.Le(c.IntI(1), t), c.Lt(t, it.secpN())))
+		it.markReduced(t)
+		return it.mkByteSlice(it.intToBytes(t, 32))
+	})
 	R(VS+"Assume", func(it *Interp, _ *ssa.Function, a []Value) Value {
 		it.Assume(a[0].(*smt.Term))
 		return nil
